@@ -112,6 +112,9 @@ pub struct Config {
     pub retry_policy: bool,
     /// C20: a clone of the configured `Cucumber` stays alive while the run goes on.
     pub clone_alive: bool,
+    /// Every delivered feature carries the same `path` (a parser that splits one file
+    /// into several features).
+    pub same_path: bool,
 }
 
 impl Default for Config {
@@ -149,6 +152,7 @@ impl Default for Config {
             reverse_builder: false,
             retry_policy: false,
             clone_alive: false,
+            same_path: false,
         }
     }
 }
@@ -196,7 +200,23 @@ impl FeatSpec {
                 out += &format!("    {} {}\n", if n == 0 { "Given" } else { "And" }, step_text(*k, "bg", &fname, n + 1));
             }
         }
+        // `@outline-pair` on the feature: its first two scenarios are the two rows of one
+        // Scenario Outline (second `Examples:` block tagged `@serial`), expanded by `parse()`
+        let pair = self.tags.iter().any(|t| t == "outline-pair");
+        if pair {
+            assert!(self.scenarios.len() >= 2 && self.scenarios[0].steps == self.scenarios[1].steps);
+            assert!(self.scenarios[0].tags.is_empty() && self.scenarios[1].tags == ["serial"]);
+            let owner = format!("{fname}.S<n>");
+            out += &format!("  Scenario Outline: {owner}\n");
+            for (n, k) in self.scenarios[0].steps.iter().enumerate() {
+                out += &format!("    {} {}\n", step_keyword(n), step_text(*k, "step", &owner, n + 1));
+            }
+            out += "    Examples:\n      | n |\n      | 1 |\n    @serial\n    Examples:\n      | n |\n      | 2 |\n";
+        }
         for (j, s) in self.scenarios.iter().enumerate() {
+            if pair && j < 2 {
+                continue;
+            }
             let sname = format!("{fname}.S{}", j + 1);
             out += &tags_line("  ", &s.tags);
             out += &format!("  Scenario: {sname}\n");
@@ -228,8 +248,13 @@ impl FeatSpec {
 
     pub fn parse(&self, i: usize) -> gherkin::Feature {
         let text = self.text(i);
-        gherkin::Feature::parse(&text, GherkinEnv::default())
-            .unwrap_or_else(|e| panic!("generated feature does not parse: {e}\n{text}"))
+        let f = gherkin::Feature::parse(&text, GherkinEnv::default())
+            .unwrap_or_else(|e| panic!("generated feature does not parse: {e}\n{text}"));
+        if self.tags.iter().any(|t| t == "outline-pair") {
+            use cucumber::feature::Ext as _;
+            return f.expand_examples().expect("outline expansion");
+        }
+        f
     }
 }
 
@@ -378,7 +403,7 @@ pub fn collection() -> Collection<TW> {
     };
     let loc = |line| Some(cucumber::step::Location { path: "harness.rs", line, column: 1 });
     let (main, wide, amb) =
-        (r"^(step|bg|rbg) (\S+) (\d+)$", r"^ambig-\S+ .*$", r"^ambig-(step|bg|rbg) (\S+) (\d+)$");
+        (r"^x?(step|bg|rbg) (\S+) (\d+)$", r"^ambig-x?\S+ .*$", r"^a?ambig-(step|bg|rbg) (\S+) (\d+)$");
     // the same definitions under all three step types (steps use every keyword); the
     // ambiguous pattern text at two locations: two definitions, not one
     Collection::new()
@@ -415,7 +440,13 @@ pub fn parser_stream(
         .items
         .iter()
         .map(|it| match it {
-            Item::Feat(i) => Ok(cfg.feats[*i].parse(*i)),
+            Item::Feat(i) => {
+                let mut f = cfg.feats[*i].parse(*i);
+                if cfg.same_path {
+                    f.path = Some(std::path::PathBuf::from("features/all in one.feature"));
+                }
+                Ok(f)
+            }
             Item::Err(tag) => Err(parser_error(tag)),
         })
         .collect();
